@@ -113,6 +113,19 @@ def views_case(case):
                     exp = float(rs.mean([F(rs.eig(s, S)) for s in shots]))
                     if abs(ev - exp) > 1e-12:
                         return {"ok": False, "msg": "measured <Z_%s> is not the sample mean of the eigenvalue" % (list(S),), "expected": exp, "observed": float(ev), "sig": "views:measured-expectation"}
+    # measured expectation on a multi-outcome sample set with pairwise different counts (outcome i of the support gets i+1 shots), for every subset,
+    # including operators narrower than the register
+    if len(support) >= 2:
+        shots = [b for i, b in enumerate(support) for _ in range(i + 1)]
+        m = Measurements(list(shots))
+        from orquestra.quantum.operators import PauliSum, PauliTerm
+        for S in subsets:
+            for op in (z_op(S), PauliSum([z_op(S), PauliTerm("I0", 0.5)])):
+                ev = m.get_expectation_values(op).values[0]
+                exp = float(rs.mean([F(rs.eig(s, S)) for s in shots]))
+                if abs(ev - exp) > 1e-12:
+                    return {"ok": False, "msg": "measured <Z_%s> on %d shots over %d outcomes is not the sample mean (position q of a count string = qubit q)" % (list(S), len(shots), len(support)),
+                            "expected": exp, "observed": float(ev), "sig": "views:measured-expectation-multi"}
     if set(outcomes) != set(support) and len(support) <= 2 ** n:
         # every supported outcome must be reachable by some answer (the enumeration is complete for 1 and 2 samples)
         return {"ok": False, "msg": "some outcome with non-zero exact probability can never be sampled", "expected": str(support), "observed": str(sorted(outcomes)), "sig": "views:unreachable"}
